@@ -1,6 +1,6 @@
 #!/bin/sh
 # confirm and run every finished later-round seeded change (/tmp/wt/cNN<letter>) not imported yet
-cd /verif
+cd "$(dirname "$0")/.." || exit 2
 # usage: tools/round2.sh [c05c c06c ...]   (default: every finished one)
 if [ $# -gt 0 ]; then set -- $(for a in "$@"; do echo /tmp/wt/$a; done); else set -- /tmp/wt/c[0-9][0-9][b-z]; fi
 for d in "$@"; do
